@@ -163,4 +163,12 @@ def check_obligations(ctx, module):
             ok = False
         else:
             ctx.obligations.append((n, ax))
+    if ctx.tier == "thorough":
+        # independent re-check of the compiled module (and everything it imports) by Lean's own olean checker
+        p = sh(["lake", "env", "leanchecker", "FinProtoc.Props." + module], cwd=LEAN, check=False, timeout=3000)
+        if p.returncode != 0:
+            ctx.broken.append("leanchecker rejects FinProtoc.Props.%s: %s" % (module, (p.stdout + p.stderr)[-300:]))
+            ok = False
+        else:
+            ctx.cov["leanchecker"] = "FinProtoc.Props.%s re-checked" % module
     return ok
